@@ -184,12 +184,19 @@ fn main() {
         .unwrap();
     let universe: Vec<i64> = (1..=4 * (MAX_N + 1)).collect();
     for round in 0..rounds {
+        // Every second round the real SOA serials straddle the 2^32 wrap: the
+        // version with index `wrap_at` (2 or 3; there are always >= 3
+        // versions) has serial 0, the ones before it 4294967295, 4294967294.
+        // All logged serials are version indexes (TLC never sees the raw value).
+        let wrap_at: u32 = if round % 2 == 1 { 2 + rng.below(2) as u32 } else { 0 };
+        let base: u32 = 0u32.wrapping_sub(wrap_at);
+        SERIAL_BASE.store(base, std::sync::atomic::Ordering::SeqCst);
         // --- the sender zone and its history
         let mut cur: BTreeSet<i64> =
             universe.iter().cloned().filter(|_| rng.chance(1, 2)).collect();
         let zone = build_zone(1, &cur.iter().cloned().collect::<Vec<_>>());
         let mut versions: Vec<(i64, Vec<i64>)> = vec![(1, cur.iter().cloned().collect())];
-        tw.event(json!({"ev": "new", "round": round, "want": versions[0].1,
+        tw.event(json!({"ev": "new", "round": round, "serial_base": base.to_string(), "want": versions[0].1,
                         "walk": walk_content(&zone, MAX_N)}));
         let mut diffs: Vec<Arc<InMemoryZoneDiff>> = vec![];
         let ncommits = 2 + rng.below(3) as i64;
